@@ -42,6 +42,16 @@ class FileSystem(SimComponent):
         if not self.folders:
             self.create_folder("root")
 
+    def setup_for_episode(self, episode: int):
+        """Start the episode with both per-step counters at zero.
+
+        The folders and files that the scenario configures, and the files that software creates while it is installed,
+        exist before the first step: they are not creations of that step.
+        """
+        super().setup_for_episode(episode=episode)
+        self.num_file_creations = 0
+        self.num_file_deletions = 0
+
     def _init_request_manager(self) -> RequestManager:
         """
         Initialise the request manager.
